@@ -404,18 +404,26 @@ def main(ck):
     except (OSError, ValueError, KeyError):
         pass
     ck.assumptions += [
-        "the index list used for hashing (alive shard indexes, or the per-measurement list) is the same when a point is "
-        "written and when the query runs; partitions going offline between the two are outside the model",
-        "one shard-key definition per measurement (no ALTER SHARDKEY history), one engine type per policy",
-        "row tags are sorted by key and carry no empty values (what the line-protocol parser delivers)",
+        "pruning theorems: the index list hashed over (alive shard indexes, or the measurement's own shard list) is the same when "
+        "a row is written and when the query runs (prune_sound_alive_change states exactly this; what today's code does when the "
+        "list changed is the open finding C11-alive-set-change-skips-online-shard); rows whose partition is offline when the "
+        "query runs are not expected in the answer",
+        "one database-level shard key per database (hashed), one sharding type per retention policy, one engine type per policy",
+        "row tags are sorted by key and carry no empty values (what the line-protocol parser delivers); column-store and stream "
+        "rows (unsorted tags, key columns that are fields, dimension order) are covered by the direct oracle only",
+        "range sharding: split points handed to ReSharding are non-empty and strictly increasing (bounds_sorted); ts-meta takes "
+        "them from existing series keys in order",
+        "hinted queries (full_series / specific_series) on a measurement without a shard key promise only the rows of the series "
+        "whose tag set is the condition's",
         "black box: single-node ts-server built from the working tree, ptnum-pernode 1 vs N, HTTP /write and /query; the "
-        "single-partition server is the oracle",
+        "single-partition server is the oracle; pure time-range queries must also equal the acknowledged rows",
         "rows are evaluated with the repository's influxql.EvalBool per leaf (absent tag = empty string); AND/OR/parentheses "
         "are evaluated by the harness and by the model",
     ]
     ck.cov["trusted_base"] = ["Coq 8.16.1 kernel + vm_compute (cases evaluation, witnesses, Examples)",
                               "no axioms (Print Assumptions: closed)", "Go harness cmd/c11, python driver props/C11/run.py",
-                              "add-only hooks coordinator/verif_export_c11.go, lib/util/lifted/influx/meta/verif_export_c11.go"]
+                              "add-only hooks coordinator/verif_export_c11.go, verif_export_c11b.go, verif_export_c11c.go, "
+                              "lib/util/lifted/influx/meta/verif_export_c11.go"]
     ck.coq_audit(["C11"])
     ok = ck.coq_build(["C11/Proofs.vo", "C11/ProofsRange.vo", "C11/Corr.vo"])
     if ok:
@@ -575,12 +583,14 @@ def main(ck):
     ck.cov["evaluations"] = len(cases)
     ck.cov["distinct_nontrivial"] = len(nontriv)
     ck.cov["traces_validated_against_impl"] = len(cases) - len(code_fail) - (0 if mask else 1) if ok and evok else 0
-    ck.cov["rule"] = ("case = generated catalogue (1-3 measurements with their own shard keys (0-3 tags) and shard lists, partition count, "
-                      "group duration, hash/range, offline partition, deleted/truncated group, optional ALTER SHARDKEY between two "
-                      "batches) + write batches interleaving the measurements (5-14 rows on/around group boundaries, rows dropped by "
-                      "the schema check) routed by the real per-batch loop + condition tree on one measurement; non-trivial = the "
-                      "read path pruned at least one alive shard AND at least one routed row of the queried measurement satisfies "
-                      "the query; distinct = different (cfg, condition, queried measurement, rows)")
+    ck.cov["rule"] = ("case = generated catalogue (database with or without a shard key; 1-3 measurements with their own shard keys (0-3 "
+                      "tags) and shard lists, partition count, group duration, hash/range, partitions offline at write and/or at query "
+                      "time, hard-write, deleted/truncated group, optional ALTER SHARDKEY or real Data.ReSharding between two batches) "
+                      "+ write batches interleaving the measurements (5-14 rows on/around group boundaries, rows dropped by the schema "
+                      "check, series whose key equals a split point) routed by the real per-batch loop + condition tree on one "
+                      "measurement, also run with the full_series and specific_series hints; non-trivial = the read path pruned at "
+                      "least one alive shard AND at least one routed row of the queried measurement satisfies the query; distinct = "
+                      "different (cfg, condition, queried measurement, rows)")
     if not getattr(ck, "replay", None):
         alt_builders(ck, binp)
         blackbox(ck)
